@@ -386,6 +386,24 @@ func (sr *SearchResults) UpdateNonEvalSegStats(runningSegStat *structs.SegStats,
 	return runningSegStat, nil
 }
 
+// copySegStatsForRunning returns a copy of the segment stats whose accumulating
+// parts (numeric and time stats, records) are private to the copy.
+func copySegStatsForRunning(ss *structs.SegStats) *structs.SegStats {
+	cp := *ss
+	if ss.NumStats != nil {
+		numStats := *ss.NumStats
+		cp.NumStats = &numStats
+	}
+	if ss.TimeStats != nil {
+		timeStats := *ss.TimeStats
+		cp.TimeStats = &timeStats
+	}
+	if ss.Records != nil {
+		cp.Records = append([]*sutils.CValueEnclosure(nil), ss.Records...)
+	}
+	return &cp
+}
+
 func (sr *SearchResults) UpdateSegmentStats(sstMap map[string]*structs.SegStats, measureOps []*structs.MeasureAggregator) error {
 	sr.updateLock.Lock()
 	defer sr.updateLock.Unlock()
@@ -416,6 +434,13 @@ func (sr *SearchResults) UpdateSegmentStats(sstMap map[string]*structs.SegStats,
 			if err != nil {
 				log.Errorf("UpdateSegmentStats: qid=%v, err: %v", sr.qid, err)
 				continue
+			}
+			if resSegStat == currSst {
+				// The first segment's stats become this measure's running stats. Several
+				// measures can be over the same column (stats sum(x), avg(x)) and would all
+				// adopt the same object, so that each later segment gets added once per
+				// measure; give every measure its own running copy.
+				resSegStat = copySegStatsForRunning(currSst)
 			}
 			sr.runningSegStat[idx] = resSegStat
 			continue
